@@ -76,14 +76,14 @@ class Run:
             ln = ln.strip()
             if not ln:
                 continue
-            if ln == "st_inserted":
+            if ln == "st_wal_sent":   # the STORE reached the shard: WAL send, then memtable insert (one model step)
                 if self.pending_fifo:
                     self.tokens.append(self.pending_fifo.pop(0))
                 elif self.pending_store:
                     self.tokens.append(self.pending_store)
                     self.pending_store = None
                 else:
-                    self.notes.append("st_inserted without a pending store")
+                    self.notes.append("st_wal_sent without a pending store")
             elif ln.startswith("fl_type_written="):
                 t = ln.split("=", 1)[1]
                 self.tokens.append(f"fw{int(t[1:])}")
@@ -222,6 +222,39 @@ class Run:
                         if '"status":200' in r.get("out", ""):
                             self.racing_acked.append((k, op[1], op[2]))
                         self.eng.rows(f"QUERY {tname(op[1])} RETURN [k]")
+                    elif op[0] == "SN":
+                        # STORE without waiting for quiescence (the flush worker may be parked)
+                        self.k += 1
+                        k = self.k
+                        self.pending_fifo.append(f"S{k}.{op[2]}.{op[1]}")
+                        r = self.eng.cmd(f'STORE {tname(op[1])} FOR {cname(op[2])} PAYLOAD {{"k": {k}}}')
+                        if '"status":200' in r.get("out", ""):
+                            self.racing_acked.append((k, op[1], op[2]))
+                        self.eng.cmd("!wal_drained 1500"); self.eng.cmd("!sleep 20")
+                        self.drain_trace()
+                        self.acked += self.racing_acked; self.racing_acked = []
+                    elif op[0] == "PARK":
+                        self.eng.cmd(f"!park {op[1]}")
+                    elif op[0] == "RELEASE":
+                        self.eng.cmd(f"!release {op[1]}")
+                    elif op[0] == "WAITP":
+                        w = self.eng.cmd(f"!wait_parked {op[1]} 2000")
+                        if not w.get("parked"):
+                            self.notes.append(f"park point {op[1]} not reached")
+                    elif op[0] == "BGQ":
+                        self.eng.cmd(f"!bg QUERY {tname(op[1])} RETURN [k]")
+                    elif op[0] == "JOIN":
+                        self.eng.cmd("!join")
+                    elif op[0] == "OP":
+                        # observation while something is parked (COUNT is schedule dependent then)
+                        self.drain_trace()
+                        self.observe()
+                        self.obs[-1]["parked_at"] = op[1]
+                    elif op[0] == "BLOCKSEG":
+                        # fault: a regular file sits where the next segment directory has to be created
+                        path = os.path.join(self.eng.root, "cols", "shard-0", "%05d" % int(op[1]))
+                        os.makedirs(os.path.dirname(path), exist_ok=True)
+                        open(path, "w").write("x")
                     elif op[0] == "SETTLE":
                         self.quiesce(); self.eng.cmd("!sleep 300"); self.quiesce(); self.drain_trace()
                         self.acked += self.racing_acked
